@@ -1,1 +1,18 @@
 //! Hooks of group 'access' for the /verif machinery.
+
+use crate::prelude::*;
+use crate::be::Limits;
+use crate::server::identity::Source;
+
+/// A synchronisation identity (`IdentType::Synch`) as the sync API builds it: `Identity::new` is
+/// crate-private.
+pub fn sync_identity(sync_uuid: Uuid, scope: AccessScope) -> Identity {
+    Identity::new(
+        IdentType::Synch(sync_uuid),
+        Source::Internal,
+        Uuid::from_u128(0x5c),
+        scope,
+        Limits::unlimited(),
+        None,
+    )
+}
